@@ -111,6 +111,13 @@ def gen_font(case):
 
             def pick():
                 if r.random() < 0.15:
+                    if r.random() < 0.4:
+                        # the foreground colour named through a palette variable: still the foreground
+                        free = [i for i in range(8) if i not in used_idx]
+                        if free:
+                            i_ = r.choice(free)
+                            used_idx.add(i_)
+                            return ("fg", None, i_)
                     return ("fg", None, None)
                 col = r.choice(palette_pool)
                 idx = None
@@ -119,9 +126,10 @@ def gen_font(case):
                         idx = idx_of[col]
                     else:
                         free = [i for i in range(8) if i not in used_idx]
-                        idx = r.choice(free)
-                        idx_of[col] = idx
-                        used_idx.add(idx)
+                        if free:
+                            idx = r.choice(free)
+                            idx_of[col] = idx
+                            used_idx.add(idx)
                 return ("rgb", col, idx)
 
             if r.random() < 0.3:
@@ -130,7 +138,7 @@ def gen_font(case):
                 for o in (0, 0.5, 1):
                     k, col, idx = pick()
                     so = r.choice([1.0, 0.6])
-                    cs = "currentColor" if k == "fg" else css(col, idx)
+                    cs = ("currentColor" if idx is None else f"var(--color{idx}, currentColor)") if k == "fg" else css(col, idx)
                     sx += f'<stop offset="{o}" stop-color="{cs}"' + (f' stop-opacity="{so}"' if so != 1 else "") + "/>"
                     stops.append((k, col, idx, so * op))
                 gid = f"g{g}_{l}"
@@ -139,7 +147,7 @@ def gen_font(case):
                 exp.append(("grad", stops))
             else:
                 k, col, idx = pick()
-                fill = "currentColor" if k == "fg" else css(col, idx)
+                fill = ("currentColor" if idx is None else f"var(--color{idx}, currentColor)") if k == "fg" else css(col, idx)
                 exp.append(("solid", (k, col, idx, op)))
             body += f'<rect x="{x}" y="{y}" width="30" height="20" fill="{fill}"' + (f' opacity="{op}"' if op != 1 else "") + "/>"
         glyphs.append((f'<svg xmlns="http://www.w3.org/2000/svg" viewBox="0 0 100 100"><defs>{defs}</defs>{body}</svg>', exp))
